@@ -319,6 +319,17 @@ def main(argv):
     # known findings: replay each listed input on the real code
     if not replay:
         for f in known:
+            if f.get("script"):
+                # a probe script over the real binary: exit 0 = the recorded defect is (still) observed
+                if not pint_bin:
+                    notes.append("known finding %s not probed: no binary" % f.get("id"))
+                    continue
+                rc, out = sh(["bash", os.path.join(VERIF, f["script"])], env=dict(goenv(), PINT=pint_bin), timeout=300, limit=True)
+                if rc == 0:
+                    known_lines.append("KNOWN-FINDING: property=%s %s" % (prop, f["what"]))
+                elif rc != 1:
+                    notes.append("known finding probe %s did not run: %s" % (f["script"], out[-500:]))
+                continue
             rp = os.path.join(VERIF, f["replay"])
             od = tempfile.mkdtemp(prefix="known-", dir=BUILD)
             try:
